@@ -51,7 +51,7 @@ static inline void iora_cb_onData(TcpEngine *self, SessionId sid, iora_wptr p, s
 
 /* loop 1 of readAvail: `for (;;)`. No variant: the loop runs as long as the kernel has data (termination is the peer's choice). */
 #define IORA_LOOP_TcpEngine_readAvail_1 IORA_LC( \
-  __CPROVER_assigns(s->tlsWantWrite, s->lastActivity, s->closed, self->_sessions.has, self->_cbMutex.held, self->_atomicStats.bytesIn, READ_GHOSTS) \
+  __CPROVER_assigns(iora_lv1 /* the loop counter, if the text has one (plugin.py) */, s->tlsWantWrite, s->lastActivity, s->closed, self->_sessions.has, self->_cbMutex.held, self->_atomicStats.bytesIn, READ_GHOSTS) \
   __CPROVER_loop_invariant(!s->closed && self->_sessions.has && !self->_cbMutex.held && G_close_calls == __CPROVER_loop_entry(G_close_calls)) \
   __CPROVER_loop_invariant(self->_atomicStats.bytesIn - __CPROVER_loop_entry(self->_atomicStats.bytesIn) == G_received - __CPROVER_loop_entry(G_received)) \
   __CPROVER_loop_invariant(self->_cbs.onData ? (G_delivered == G_received && G_dcb_calls - __CPROVER_loop_entry(G_dcb_calls) == G_rd_pos_calls - __CPROVER_loop_entry(G_rd_pos_calls)) \
